@@ -8,6 +8,7 @@ from ..core import (AnalysisIncomplete, call_name, const_value, kwarg,
 from ..patterns import (Cmp, assigns_to, calls_in, check_no_arg_mutation,
                         conjuncts, finfo, returns_of, subscript_stores)
 from .msm_common import TM, MS, TS
+from ..match import C, CS
 
 EXPLANATION = (
     'Static decision of the structural necessary conditions of ergodic '
@@ -83,11 +84,10 @@ def check(ck):
                 ck.check(ok, 'C11.D2.weights', mod, pops[0], 'trim_disconnected', 'definitions of %s at pops' % counts,
                          'weights see the caller\'s counts (only densified)', 'counts were redefined before the weights were taken')
     sp = [s for s in assigns_to(fn, 'subgraph_pops') if isinstance(s, ast.Assign)]
-    oks = len(sp) == 1 and 'np.sum(pops[%s == i])' % labels in u(sp[0].value) and 'range(%s)' % nsub in u(sp[0].value)
+    oks = len(sp) == 1 and C('np.sum(pops[%s == i])' % labels) in u(sp[0].value) and 'range(%s)' % nsub in u(sp[0].value)
     ck.check(oks, 'C11.D2.weights', mod, sp[0] if sp else fn, 'trim_disconnected', u(sp[0]) if sp else 'subgraph_pops',
              'component weight = sum of member weights, one entry per component', 'per-component weight must sum pops over labels == i for i in range(n_subgraphs)')
-    best = [s for s in walk_local(fn) if isinstance(s, ast.Assign) and isinstance(s.value, ast.Call)
-            and call_name(s.value) in ('np.argmax',) and u(s.value.args[0]) == 'subgraph_pops']
+    best = [s for s in walk_local(fn) if isinstance(s, ast.Assign) and u(s.value) == C('np.argmax(subgraph_pops)')]
     ck.check(len(best) == 1, 'C11.D2.heaviest', mod, best[0] if best else fn, 'trim_disconnected', u(best[0]) if best else 'argmax',
              'heaviest component selected by argmax', 'the kept component must be np.argmax(subgraph_pops) (heaviest, not largest/first)')
     bname = u(best[0].targets[0]) if best else '?'
@@ -187,6 +187,8 @@ def check(ck):
     ok = len(idm) == 1 and u(idm[0].value).replace(' ', '') == 'TrimMapping(zip(range(tcounts.shape[0]),range(tcounts.shape[0])))'
     ck.check(ok, 'C11.D4.fit', mm, idm[0] if idm else fit, 'MSM.fit', u(idm[0]) if idm else 'identity mapping',
              'identity mapping when trimming is off', 'without trimming the mapping must be the identity over all states')
+    from .C16 import d2_pipeline
+    d2_pipeline(ck, mm)
     check_no_arg_mutation(ck, 'C11.D5.inputs-unmodified', [(TM, 'trim_disconnected')])
     return EXPLANATION
 
